@@ -92,7 +92,18 @@ func (p *Prog) seqProducerShape() seqShape {
 				}
 				// set before the map is stored: in the same function the entry's instruction must precede the store; an entry made
 				// inside a helper is complete when the helper returns
-				if e.frame.fn != fn || (e.at.Block() == in.Block() && indexIn(e.at) < indexIn(in)) || (e.at.Block() != in.Block() && e.at.Block().Dominates(in.Block())) {
+				if e.frame.fn != fn {
+					// made inside a helper: the entry must be set on every path to the helper's returns
+					uncond := true
+					eachInstr(e.frame.fn, func(b2 *ssa.BasicBlock, i2 ssa.Instruction) {
+						if _, isRet := i2.(*ssa.Return); isRet && !(e.at.Block() == b2 || e.at.Block().Dominates(b2)) {
+							uncond = false
+						}
+					})
+					if uncond {
+						found = true
+					}
+				} else if (e.at.Block() == in.Block() && indexIn(e.at) < indexIn(in)) || (e.at.Block() != in.Block() && e.at.Block().Dominates(in.Block())) {
 					found = true
 				}
 			}
